@@ -158,8 +158,11 @@ def check_c07(ctx):
               "Shop:\n    !type T:\n        f <: sequence of\n",
               "Shop:\n    Ep:\n        if x:\n            B <- \n",
               "import a\nimport b as\nShop:\n    Ep:\n        ...\n",
-              "Shop:\n    /a/{id <: int:\n        GET:\n            ...\n"]
-    for i, b in enumerate(broken if not quick else broken[:4]):
+              "Shop:\n    /a/{id <: int:\n        GET:\n            ...\n",
+              # the first syntax error is the end of the file (a header without a body)
+              "Broken:\n", "import dep\n\nShop:\n", "Shop:\n    Ep:\n"]
+    broken = broken[-3:] + broken[:-3]
+    for i, b in enumerate(broken if not quick else broken[:6]):
         sources.append({"decls": [], "text": b})
     for f in rng.sample(fam_frontend.corpus_files(), 6 if quick else 40):
         try:
